@@ -53,7 +53,7 @@ def run(ctx):
                         "and the parser shape invariant ShapeOK (checked on every real tree, reported as inv)"]
     ctx.regen()
     ctx.extra_lean_dirs = ["C10"]
-    ctx.prove(["TsVerif.C02.Props", "TsVerif.C02.EditProps", "TsVerif.C02.BalanceProps"], "TsVerif/C02/Audit.lean")
+    ctx.prove(["TsVerif.C02.Props", "TsVerif.C02.EditProps", "TsVerif.C02.BalanceProps", "TsVerif.C02.BalanceSumm"], "TsVerif/C02/Audit.lean")
     driver = ctx.build_driver("tsv-c02")
     explorer = ctx.cargo_bin("c02")
     langdump = ctx.cunit("cunit_c02")
@@ -92,7 +92,8 @@ def run(ctx):
     totals = {"raw": 0, "vis": 0, "inner": 0, "leaves": 0, "literals": 0}
     sizes = {"0": 0, "1-15": 0, "16-255": 0, "256-4095": 0, "4096+": 0}
     corr_bad = judge_bad = inv_bad = 0
-    bal = {"cases": 0, "changed": 0, "corr_bad": 0, "judge_bad": 0, "nodes": 0}
+    bal = {"cases": 0, "changed": 0, "corr_bad": 0, "judge_bad": 0, "nodes": 0, "thm_in": 0, "thm_in_changed": 0, "thm_out": 0, "thm_bad": 0, "in_unsummarized": 0}
+    bal_bad_cases = []
     per_clause = {}
     bom_docs = 0
     bom_langs = set()
@@ -110,6 +111,18 @@ def run(ctx):
             bal["cases"] += 1
             bal["changed"] += int(kv.get("changed", "0") or 0)
             bal["nodes"] += int(kv.get("raw", "0") or 0)
+            # balance_summarized / compress_symbol: hypotheses (input summarized, balanceOK / rotOK) and conclusion
+            if kv.get("balin", "1") != "1":
+                bal["in_unsummarized"] += 1
+            elif kv.get("balhyp", "0") != "1":
+                bal["thm_out"] += 1
+            elif kv.get("balconcl", "0") == "1":
+                bal["thm_in"] += 1
+                bal["thm_in_changed"] += int(kv.get("changed", "0") or 0)
+            else:
+                bal["thm_bad"] += 1
+                if len(bal_bad_cases) < 3:
+                    bal_bad_cases.append("%s: %s" % (cid, spec[:100]))
             if corr != "ok":
                 bal["corr_bad"] += 1
                 for cl in clauses(corr):
@@ -182,6 +195,14 @@ def run(ctx):
                "%d rebalancing cases (%d changed the tree), %d disagree" % (bal["cases"], bal["changed"], bal["corr_bad"]))
     ctx.oblige("judge:rebalancing-keeps-leaves-root-extent-and-summaries(on the real results)", bal["judge_bad"] == 0,
                "%d of %d cases" % (bal["judge_bad"], bal["cases"]))
+    ctx.oblige("corr:balance_summarized-conclusion-holds-wherever-its-hypotheses-hold(input summarized; balanceOK / rotOK: wherever ts_subtree_compress is called the "
+               "nodes of the rotated symbol are hidden, non-extra, not MISSING, alias-free and the symbol is no error symbol; conclusion: every summary of the result and the face of the tree kept)",
+               bal["thm_bad"] == 0 and (bal["thm_in_changed"] > 0 or bool(ctx.replay) or bal["cases"] == 0),
+               "%d cases inside the theorem (%d of them changed the tree), %d outside (hypothesis false), %d with an unsummarized input, %d conclusion failures %s"
+               % (bal["thm_in"], bal["thm_in_changed"], bal["thm_out"], bal["in_unsummarized"], bal["thm_bad"], "; ".join(bal_bad_cases)))
+    ctx.coverage["balance_summarized_hypotheses"] = {"cases_inside": bal["thm_in"], "inside_and_tree_changed": bal["thm_in_changed"],
+                                                     "cases_outside(hypothesis false: the artificial chain uses a VISIBLE symbol)": bal["thm_out"],
+                                                     "inputs_not_summarized": bal["in_unsummarized"], "conclusion_failures": bal["thm_bad"]}
     ctx.coverage["rebalancing"] = {"cases": bal["cases"], "cases_where_the_tree_changed": bal["changed"], "nodes": bal["nodes"],
                                    "port_vs_real_disagreements": bal["corr_bad"], "judge_failures": bal["judge_bad"],
                                    "rule": "per zoo language 10 (thorough: 60) unbalanced trees built in the unity build (left-deep chains of a hidden "
